@@ -11,14 +11,15 @@ echo
 echo "| seed | attacks | needs (abridged) | check exit | verdict line | theorems | mismatches | oracle violations |"
 echo "|---|---|---|---|---|---|---|---|"
 } > $out
-for d in seeded/C*/; do
+for d in seeded/[CD]*/; do
   id=$(basename $d)
   needs=$(python3 -c "import json,sys; m=json.load(open('$d/meta.agent.json')); print(str(m.get('needs',''))[:160].replace('|','/').replace('\n',' '))" 2>/dev/null)
-  log=build/seed-$id-$id.log
-  tools/seedtest.sh $id $id > build/seedall-$id.txt 2>&1
+  prop=$(python3 -c "import json; print(json.load(open('$d/meta.agent.json')).get('property','$id'))" 2>/dev/null)
+  log=build/seed-$id-$prop.log
+  tools/seedtest.sh $id $prop > build/seedall-$id.txt 2>&1
   ex=$(grep -o "exit [0-9]*" build/seedall-$id.txt | head -1)
   verdict=$(grep -E "^VIOLATION" $log | head -1 | sed 's/replay=.*build/replay=build/' | cut -c1-90)
   stats=$(grep -E "quick: (PASS|FAIL)" $log | sed -E 's/.*theorems ([0-9]+\/[0-9]+), [0-9]+ evaluations, ([0-9]+) mismatches, ([0-9]+) oracle violations.*/\1 | \2 | \3/')
-  echo "| $id | $id | $needs | $ex | $verdict | $stats |" >> $out
+  echo "| $id | $prop | $needs | $ex | $verdict | $stats |" >> $out
 done
 cat $out | tail -25
